@@ -166,8 +166,8 @@ class Kauri(ClusterMixin, BaseEstimator, ABC):
                 kernel = y
         else:
             kernel = pairwise_kernels(X, metric=self.kernel)
-        # The compiled split search only handles double precision kernels
-        return np.asarray(kernel, dtype=np.float64)
+        # The compiled helpers only handle writeable double precision kernels (a user's matrix may be read-only)
+        return np.require(kernel, dtype=np.float64, requirements=["W"])
 
     def fit(self, X, y=None):
         """Performs the KAURI algorithm by repeatedly choosing leaves, evaluating best gain and increasing the tree
